@@ -303,6 +303,14 @@ Theorem C13_restored_world_consistent : forall W W' W2 D numb,
   consistent W -> deleted W W' D -> still_listed W W' D -> is_restored W W2 D numb -> consistent W2.
 Proof. exact P_restored_consistent. Qed.
 Print Assumptions C13_restored_world_consistent.
+(* object history "sync, resize, rebuild": a consistent world is determined by its index sets, so a rebuild on the synced sets
+   (which yields a consistent world: C04_spec) returns exactly the remote lists sync left (observed by the harness, hist=1) *)
+Theorem C13_consistent_world_determined_by_index_sets : forall W1 W2, consistent W1 -> consistent W2 ->
+  (forall p, c13_iset (c13_proc_of W1 p) = c13_iset (c13_proc_of W2 p)) ->
+  forall p, c13_ri (c13_proc_of W1 p) = c13_ri (c13_proc_of W2 p).
+Proof. exact P_consistent_unique. Qed.
+Print Assumptions C13_consistent_world_determined_by_index_sets.
+
 Theorem C13_restore_then_second_sync_idle : forall W W' W2 D numb numb2 p order order2,
   consistent W -> deleted W W' D -> still_listed W W' D -> is_restored W W2 D numb ->
   (forall s, In s order <-> In s (map fst (c13_ri (c13_proc_of W p)))) ->
